@@ -19,6 +19,8 @@ BAG = {
     "stall": '<<"join","sub","pub","pub","reg","reg","call","call","call","yield","yield","yield","stall","stall","resume","adv","adv","ckill","cancel">>',
     "authzrpc": '<<"join","join","reg","reg","call","call","call","inverr","inverr","inverr","yield","cancel","leave">>',
     "stallkill": '<<"join","reg","reg","sub","sub","call","call","stall","stall","pub","pub","pub","ckill","ckill","adv","resume","yield">>',
+    # a script (the first two inputs are joins anyway): a callee that also subscribes is called, stops reading, its queue fills, ...
+    "stallseq": '<<"join","join","reg","sub","call","stall","pub","pub","ckill","call","msess","adv","resume","yield","pub","cancel","adv","leave">>',
     "killx": '<<"join","join","sub","wsub","tst","tst","kill","kill","kill","leave","msess","pub">>',
     "stallburst": '<<"join","join","sub","sub","sub","stall","bpub","bpub","bpub","resume","pub","leave">>',
     "burst": '<<"join","join","sub","sub","sub","reg","pub","bpub","bpub","bpub","leave","bmix">>',
@@ -80,7 +82,8 @@ PROPS = {
                 conc=dict(inv=["NoPanic", "Bounded"], props=["BrokerNeverWedged", "CloseReturns"]),
                 gen=[dict(bag="stall", depth=24, quick=200, thorough=2500, mode="stall"),
                      dict(bag="stallburst", depth=16, quick=100, thorough=1500, mode="stall"),
-                     dict(bag="stallkill", depth=18, quick=160, thorough=2500, mode="stall"),
+                     dict(bag="stallkill", depth=18, quick=100, thorough=2000, mode="stall"),
+                     dict(bag="stallseq", depth=16, quick=120, thorough=2000, mode="stall", scripted=True),
                      dict(bag="burstrpc", depth=10, quick=120, thorough=1500)],
                 classes=["sess", "pubsub", "meta", "rpcreply", "rpcroute", "rpcintr", "snap"]),
     "C08": dict(family="core",
@@ -409,7 +412,8 @@ def run_core(prop, spec, tier, seed, work, replay):
         # leg 2: generate
         scns = []
         for gi, g in enumerate(spec["gen"]):
-            part = gen_scenarios(work, "Gen", {"Deviations": tla_set(devs), "Depth": g["depth"], "Mode": '"%s"' % g.get("mode", "")},
+            part = gen_scenarios(work, "Gen", {"Deviations": tla_set(devs), "Depth": g["depth"], "Mode": '"%s"' % g.get("mode", ""),
+                                               "Scripted": "TRUE" if g.get("scripted") else "FALSE"},
                                  g[tier], g["depth"], seed * 7919 + gi, "gen%d" % gi, "%s.%s%d." % (prop, g["bag"], seed),
                                  defs={"KindBag": BAG[g["bag"]]})
             for s in part:
